@@ -176,6 +176,10 @@ def run(rep):
     rep.clause("R-C14-siblings", "FixedIn/FixedOut siblings report the same formula")
     rep.not_decided += ["the measured group delay of each filter (numerical); this rule is a consistency condition between three places in the code"]
     rep.trusted += ["syn parser", "sympy"]
+    # everything else a working resampler needs (see rules/shares.py: a change that makes the resampler panic, drop frames, corrupt state on a
+    # rejected call or forward a trait-object call wrongly breaks this property as well)
+    import shares as _shares
+    _shares.complete(rep)
     return rep.finish(level="other", explanation=(
         "Alignment model: three code facts determine where an input event lands in the output - the initial read position, the kernel's centre "
         "relative to the read position, and the history offset (which cancels) - and must agree with the formula output_delay() reports."))
